@@ -71,9 +71,9 @@ gen_claim("C07", "Theorem C07_report_exact (gen_exact): for every declaration in
           "equals expected(d, v) as a multiset of (Path, Type, Value-matches-field), nil receiver yields ErrNil<T>, and errors.Is over every exported "
           "sentinel (directly and through %w) agrees with the report. Known findings D7-D10 are recognized by the Coq class predicates of Gen/Guard.v.",
           "DESIGN.md §5 C07")
-gen_claim("C08", "Per-run certificates plus the Go compiler as decision procedure: every corpus package (several structs and files per package, up to "
+gen_claim("C08", "Theorems C08_no_missing_declaration (for EVERY declaration: each error variable a check copies, and the nil sentinel, is declared by the var block), C08_no_duplicate_declaration_flat (flat structs whose field names do not differ by a trailing Min/Max: declared names pairwise distinct, from a table of the 19 rule suffixes), C08_file_shape, C08_generation_total, C08_emitted_file (the same about the emitted file given the run's certificate), refuted witnesses for D9/D20; both conclusions are also evaluated on every translated real file. Beyond the naming scheme the Go compiler is the decision procedure: per-run certificates plus every corpus package (several structs and files per package, up to "
           "40 fields, nesting <= 3, parameters needing escaping) must build together with compile-time assertions that *T implements govalid.Validator "
-          "and govalid.ContextValidator, pass go vet and be gofmt-clean. Partial w.r.t. the full Go type checker (not modelled).", "DESIGN.md §5 C08")
+          "and govalid.ContextValidator, pass go vet and be gofmt-clean; 46 CEL rules covering every import heuristic must generate, build and vet. Partial w.r.t. the full Go type checker, imports.Process and format.Source (not modelled); no distinctness theorem for nested structs.", "DESIGN.md §5 C08")
 gen_claim("C09", "Theorems C09_no_gap (a violated written rule is never answered with nil), C09_inapplicable_harmless, on top of gen_exact. Per-run certificates and differential over declaration shapes: struct-level vs per-field placement of the same markers (compared "
           "entry by entry), multi-name fields, type ( ... ) groups mixing struct and non-struct specs, embedded fields, deep nesting, 100 fields; "
           "every written rule violated by some case must be reported.", "DESIGN.md §5 C09")
@@ -100,8 +100,10 @@ CLAIMS["C10"] = dict(
          "stop generation. Tie on every run (360 quick / 2500 thorough expressions x value grids): cel-go's AST and go/parser's tree of every emitted "
          "condition are translated into Coq terms; certificate emitted = model for EVERY generated expression (in or out of the fragment); generator "
          "accepts <-> model generates; ceval vs cel-go and geval vs the compiled validator on every binding; compiled validator vs cel-go on every boolean "
-         "point. Outside the proved fragment (ternary, maps, size of strings, narrow arithmetic, division by a field, const float folding) only the "
-         "behavioural comparison applies; the open classes D14, D15, D23, D34 are exhibited as _refuted theorems and witnessed on every run.",
+         "point. The fragment includes matches() with run-time patterns, membership in list-valued expressions (slices.Contains and the generic loop with its "
+         "fresh variable) and nested comprehension macros. Outside it (ternary, maps, size of strings, narrow arithmetic, division by a non-constant, "
+         "comparison of double constants) only the behavioural comparison applies; the open classes D14, D15, D16, D23, D34 are exhibited as _refuted "
+         "theorems and witnessed on every run. The certificate obligation is stated for outputs that compile.",
     ref="DESIGN.md §5 C10", note="Trusted: Coq kernel (vm_compute certificates); Reals axioms via Flocq (named in the evidence); oracle hypotheses on regexp/time; "
     "hand-written models of cel-go's interpreter and of Go expression semantics, both compared with the implementations on every run; harness translators "
     "(internal/celx); cel-go's parser/checker as shared front end; the Go compiler as judge of loud failure.",
